@@ -186,9 +186,10 @@ def check_sites(R, mod, fn, qual, decider, allowed_exc=(), caught_exc=(), specia
             R.violation(inst, key, '%s `%s` in %s is reachable: %s' % ('assert-unreachable name' if kind == 'belief' else 'uncaught raise', norm(node)[:70], qual, why),
                         where(mod, node))
         else:
-            R.violation(inst, key, '%s `%s` in %s has no deadness argument (%s); guards: %s' %
-                        ('assert-unreachable name' if kind == 'belief' else 'uncaught raise', norm(node)[:70], qual, why,
-                         ' and '.join(('' if p else 'not ') + u(t)[:50] for t, p in conds[-3:]) or 'none'), where(mod, node))
+            # neither reachable (no live table row satisfies the guards is not shown) nor dead: the analysis cannot decide this site -- not a violation
+            raise AnalysisError('%s `%s` in %s (%s): neither a deadness argument nor a live row that reaches it (%s); guards: %s' %
+                                ('assert-unreachable name' if kind == 'belief' else 'raise', norm(node)[:70], qual, where(mod, node), why,
+                                 ' and '.join(('' if p else 'not ') + u(t)[:50] for t, p in conds[-3:]) or 'none'))
 
 
 def run(ctx, report):
@@ -255,22 +256,18 @@ def run(ctx, report):
     imm_kinds = resolved
 
     def get_afs_special(kind, node, conds):
-        # the raise sits in the else of the chain `a[x86_afs.imm] == K`: dead iff every imm kind stored in the ModRM tables is handled
-        handled = set()
-        for t, pol in conds:
-            if not pol and isinstance(t, ast.Compare) and u(t.left) == 'a[x86_afs.imm]':
-                try:
-                    handled.add(ev0.ev(t.comparators[0]))
-                except NotConst:
-                    return None
-        if not handled:
+        # a raise in get_afs is dead iff get_afs, evaluated on every displacement kind the ModRM tables hold (under both address sizes, with and without a SIB byte), returns
+        if kind != 'raise':
             return None
         if any(isinstance(k, str) and k.startswith('?') for k in imm_kinds):
             return 'reachable', 'displacement kinds of init_pre_modrm are not statically evaluable: %s' % sorted(map(str, imm_kinds))
-        rest = imm_kinds - handled
-        if rest:
-            return 'reachable', 'init_pre_modrm stores displacement kind(s) %s that get_afs does not handle' % sorted(rest)
-        return 'dead', 'displacement kinds stored by init_pre_modrm %s are all handled' % sorted(imm_kinds)
+        for k in sorted(imm_kinds, key=str):
+            for mode_name in ('u32', 'u16'):
+                for sib in (False, True):
+                    r = X.get_afs_eval(k, mode_name, sib)
+                    if r[0] == 'raises':
+                        return 'reachable', 'init_pre_modrm stores the displacement kind %s, on which get_afs raises %s' % (k, r[1])
+        return 'dead', 'get_afs returns on every displacement kind stored by init_pre_modrm %s' % sorted(map(str, imm_kinds))
     check_sites(R1, arch, arch.method('x86allmncs', 'get_afs'), 'x86allmncs.get_afs', D, special=get_afs_special)
 
     def get_im_fmt_special(kind, node, conds):
